@@ -205,6 +205,21 @@ PROPS = {
              "target, the reopened footer; non-trivial = a walk of length >= 1 or a successful revert",
         technique="Coq proof (footer-chain model: walk after append/compaction/revert, immutability of older footers) + lock-step over previous/revert programs",
     ),
+    "C15": dict(
+        runs=[("refs", "", "refsrun", 64, 1500, 0)],
+        corr={"driver-error", "harness-error"}, corr_held=False,
+        spec={"spec:ref-count-jump", "spec:ref-use-after-release", "spec:ref-leak", "spec:handle-changed",
+              "spec:leaked-fd", "spec:leaked-mapping", "spec:stale-files"}, spec_held=False,
+        rule="8-19 steps per case over a store-backed collection (child collections in half of the cases, leveled and "
+             "forced compactions, CachePersisted sampled): persisted rounds, collection snapshots, child snapshots, "
+             "iterators advanced part-way, store snapshots and their predecessors, mergeAll cycles, closing the "
+             "collection and the store while handles stay open, closing handles in random order; every open handle is "
+             "re-read in full after every step and must show what it showed when opened; every AddRef/DecRef of the five "
+             "ref-counted types is recorded through the verifRef hook and the trace goes through the monitor; at the end "
+             "(polling up to 2 s for asynchronous unlinks) /proc/self/fd and /proc/self/maps must hold nothing under the "
+             "store directory and the directory at most the current data file; non-trivial = more than 20 count events",
+        technique="Coq proof (reference-count monitor: accepted traces have no use after release and no leak) + recorded AddRef/DecRef traces, re-reads of open handles, /proc observation",
+    ),
     "C16": dict(
         runs=[("sync", "", "syncrun", 100, 2000, 0)],
         corr={"model:top", "model:blocked", "model:ok", "model:closedret", "model:syncret", "driver-error", "harness-error"},
